@@ -5,6 +5,7 @@ case = {"cells":  [{"name": "c0", "space": "A", "param": bool}, ...],
         "elems":  [{"cell": i, "arg": int|None, "preds": [elem ids, call order], "base": int}, ...],
         "inputs": [[elem id, value], ...],      assigned before generate_actions
         "precalc": [elem ids],                  evaluated before generate_actions (D25 witness only)
+        "nones": bool,                          elements whose sum is 0 hold None (model.allow_none); observed as 0
         "targets": [elem ids], "step": int}
 An element id is its index in "elems".  Every formula first calls the
 model-level reference `cnt` (a Python function appending the element id to a
@@ -38,8 +39,13 @@ def formula_src(case, ci):
         nm = c["name"] if c["space"] == cell["space"] else "r_" + c["name"]
         return "%s(%s)" % (nm, "" if e["arg"] is None else e["arg"])
 
+    nones = bool(case.get("nones"))
+
     def expr(eid):
         e = case["elems"][eid]
+        if nones:
+            # an element whose sum is 0 holds None (allowed: model.allow_none); callers read None as 0
+            return "nz(%s)" % " + ".join(["cnt(%d)" % eid, str(e["base"])] + ["(%s or 0)" % callee(p) for p in e["preds"]])
         return " + ".join(["cnt(%d)" % eid, str(e["base"])] + [callee(p) for p in e["preds"]])
 
     mine = [i for i, e in enumerate(case["elems"]) if e["cell"] == ci]
@@ -69,6 +75,9 @@ def build(case, tag):
 
     m = mx.new_model("M" + tag)
     m.cnt = cnt
+    if case.get("nones"):
+        m.allow_none = True
+        m.nz = lambda v: v if v else None
     spaces = {}
     for c in case["cells"]:
         if c["space"] not in spaces:
@@ -101,7 +110,8 @@ def build(case, tag):
 def call(b, case, eid):
     e = case["elems"][eid]
     cl = b.cells[e["cell"]]
-    return cl() if e["arg"] is None else cl(e["arg"])
+    v = cl() if e["arg"] is None else cl(e["arg"])
+    return 0 if v is None and case.get("nones") else v
 
 
 def node_of(b, case, eid):
@@ -120,7 +130,7 @@ def snapshot(b, case):
             if eid is None:
                 extra.append([cl.fullname, repr(key)])
                 continue
-            out[eid] = ["i" if cl.is_input(*key) else "c", v]
+            out[eid] = ["i" if cl.is_input(*key) else "c", 0 if v is None and case.get("nones") else v]
     return {"elems": out, "extra": extra}
 
 
